@@ -179,7 +179,7 @@ Qed.
 Theorem delete_exact_ordered : forall d cs,
   wf_doc d ->
   doc_ordered d (rev (map pc_pair (del_order cs))) = true ->
-  delete_nodes cs d = Done (delete_spec d (rev (map pc_pair (del_order cs)))).
+  delete_nodes cs d = MDone (delete_spec d (rev (map pc_pair (del_order cs)))).
 Proof.
   intros d cs Hwf H.
   rewrite delete_exact; auto.
@@ -191,7 +191,7 @@ Qed.
 Theorem delete_exact_plain : forall d ps,
   wf_doc d ->
   doc_ordered d (map pc_pair ps) = true ->
-  delete_nodes (map (fun p => CNode p false) ps) d = Done (delete_spec d (map pc_pair ps)).
+  delete_nodes (map (fun p => CNode p false) ps) d = MDone (delete_spec d (map pc_pair ps)).
 Proof.
   intros d ps Hwf H.
   pose proof (delete_exact_ordered d (map (fun p => CNode p false) ps) Hwf) as G.
